@@ -533,7 +533,7 @@ func c20(r *mon.R) {
 			}
 			var wg sync.WaitGroup
 			start := make(chan struct{})
-			calls := make([]int64, nG)   // per-goroutine, read after wg.Wait (no synchronisation in the hot path:
+			calls := make([]int64, nG)    // per-goroutine, read after wg.Wait (no synchronisation in the hot path:
 			draws := make([][]string, nG) // atomics or locks would add happens-before edges and hide races)
 			for gi := 0; gi < nG; gi++ {
 				wg.Add(1)
